@@ -528,7 +528,225 @@ def strat_world(tier):
     return _world(tier)
 
 
+
+# ------------------------------------------------------------------------------------------------
+# shipped spec sets: the same rule over the repository's own registry (finite enumeration)
+
+SHIPPED_MODULES = ["insights.specs.default", "insights.specs.insights_archive", "insights.specs.sos_archive",
+                   "insights.specs.core3_archive", "insights.specs.jdr_archive"]
+_shipped = {}
+
+
+def _is_ctx(c):
+    from insights.core.context import ExecutionContext
+    try:
+        return issubclass(c, ExecutionContext)
+    except TypeError:
+        return False
+
+
+def _shipped_world():
+    """imports the shipped spec modules once per process; -> dict(points, impl_of, contexts)"""
+    if _shipped:
+        return _shipped
+    import importlib
+    from insights.core import dr
+    for m in SHIPPED_MODULES:
+        importlib.import_module(m)
+    from insights.specs import Specs
+    points = dict(Specs.registry)
+    order = {}     # point name -> implementations in registration order
+    # registration order is taken from the order in which the spec-set classes were defined (and, as
+    # a cross-check, must agree with the order of the point's dependency list)
+    classes = []
+
+    def walk(cls):
+        for sub in cls.__subclasses__():
+            classes.append(sub)
+            walk(sub)
+    walk(Specs)
+    for cls in classes:
+        for name in points:
+            if name in cls.__dict__:
+                v = cls.__dict__[name]
+                v = getattr(v, "func", v)
+                if dr.get_delegate(v) is not None and v is not points[name]:
+                    order.setdefault(name, []).append(v)
+    _shipped.update(points=points, order=order, Specs=Specs)
+    return _shipped
+
+
+def _deps_decl(c):
+    """(required, groups) as declared, read from the delegate's declaration (not from dr's helpers)"""
+    from insights.core import dr
+    d = dr.get_delegate(c)
+    if d is None:
+        return [], []
+    return list(d.requires), [list(g) for g in d.at_least_one]
+
+
+def _decl_ctx(c, memo):
+    if c in memo:
+        return memo[c]
+    memo[c] = set()
+    out = set()
+    from insights.core import dr
+    d = dr.get_delegate(c)
+    if d is not None:
+        for x in d.get_dependencies():
+            if _is_ctx(x):
+                out.add(x)
+            else:
+                out |= _decl_ctx(x, memo)
+    memo[c] = out
+    return out
+
+
+def shipped_cases(tier):
+    w = _shipped_world()
+    memo = {}
+    ctxs = set()
+    for name, impls in w["order"].items():
+        for im in impls:
+            ctxs |= _decl_ctx(im, memo)
+    from insights.core import dr
+    names = sorted(dr.get_name(c) for c in ctxs)
+    for pname in sorted(w["points"]):
+        for cname in names:
+            yield {"point": pname, "context": cname}
+
+
+def check_shipped(case):
+    from insights.core import dr
+    from insights.core.spec_factory import RegistryPoint
+    w = _shipped_world()
+    points, order = w["points"], w["order"]
+    if case["point"] not in points:
+        raise HarnessError("no shipped registry point %r" % case["point"])
+    P = points[case["point"]]
+    C = dr.get_component(case["context"])
+    if C is None or not _is_ctx(C):
+        raise HarnessError("no execution context %r" % case["context"])
+    memo = {}
+    impl_point = {}
+    for name, impls in order.items():
+        for im in impls:
+            impl_point[im] = name
+    graph = dr.get_dependency_graph(P)
+
+    # cross-check of the harness's notion of registration order with the registry's own dependency list
+    # (same members; a disagreement is a harness problem, not a violation)
+    deps_now = [d for d in dr.get_delegate(P).deps]
+    mine = order.get(case["point"], [])
+    if set(deps_now) != set(mine):
+        raise HarnessError("harness cannot reconstruct the implementations of %s" % case["point"])
+
+    def cands_of(name):
+        return [im for im in order.get(name, []) if C in _decl_ctx(im, memo)]
+
+    has = {}
+
+    def value(c):
+        if c in has:
+            return has[c]
+        has[c] = False
+        if _is_ctx(c):
+            r = c is C
+        elif isinstance(c, RegistryPoint):
+            cs = cands_of(c.__name__)
+            r = bool(cs) and runs(cs[-1])
+        else:
+            r = runs(c)
+        has[c] = r
+        return r
+
+    def runs(c):
+        if dr.get_delegate(c) is None:
+            return False
+        req, grp = _deps_decl(c)
+        if not all(value(x) for x in req):
+            return False
+        if any(not any(value(x) for x in g) for g in grp):
+            return False
+        name = impl_point.get(c)
+        if name is not None and C in _decl_ctx(c, memo):
+            cs = cands_of(name)
+            if cs and cs[-1] is not c:
+                return False        # registered earlier for the active context
+        return True
+
+    # stubs: nothing of the shipped datasources' own code runs (no file is read, no command executed)
+    calls = []
+    patched = []
+    try:
+        for comp in graph:
+            if _is_ctx(comp) or isinstance(comp, RegistryPoint):
+                continue
+            d = dr.get_delegate(comp)
+            if d is None:
+                continue
+
+            def stub(broker, comp=comp):
+                calls.append(comp)
+                return ("stub", dr.get_name(comp))
+            d.invoke = stub
+            patched.append(d)
+        broker = dr.Broker()
+        broker[C] = C()
+        dr.run(dict(graph), broker=broker)
+    finally:
+        for d in patched:
+            try:
+                del d.invoke
+            except AttributeError:
+                pass
+    impls = order.get(case["point"], [])
+    cs = cands_of(case["point"])
+    ctx = dict(point=case["point"], context=case["context"], implementations=[dr.get_name(i) for i in impls],
+               declared_for_active=[dr.get_name(i) for i in cs], executed=[dr.get_name(c) for c in calls if c in impls])
+    for im in impls:
+        d = _decl_ctx(im, memo)
+        n = calls.count(im)
+        if im in cs[:-1] and n:
+            raise Violation("shipped implementation %s, registered earlier for the active context than %s, was executed"
+                            % (dr.get_name(im), dr.get_name(cs[-1])), **ctx)
+        if d and C not in d and (n or im in broker):
+            raise Violation("shipped implementation %s is declared only for other contexts but was executed / has a value"
+                            % dr.get_name(im), **ctx)
+        if n > 1:
+            raise Violation("shipped implementation %s was executed %d times" % (dr.get_name(im), n), **ctx)
+    free = [im for im in impls if not _decl_ctx(im, memo)]
+    labels = ["impls=%s" % (len(impls) if len(impls) < 3 else "3+"), "cands=%s" % (len(cs) if len(cs) < 3 else "3+")]
+    if free:
+        labels.append("has-context-free-impl(unasserted)")
+    elif cs:
+        L = cs[-1]
+        want = runs(L)
+        if bool(calls.count(L)) != want:
+            raise Violation("latest shipped implementation for the active context, %s, %s" % (
+                dr.get_name(L), "was not executed although its requirements are met" if want else
+                "was executed although its requirements are not met"), **ctx)
+        if want:
+            if P not in broker or broker[P] != ("stub", dr.get_name(L)):
+                raise Violation("spec %s does not hold the value of its latest implementation for the active context (%s): %r"
+                                % (case["point"], dr.get_name(L), broker.get(P)), **ctx)
+        elif P in broker:
+            raise Violation("spec %s holds %r although its latest implementation for the active context yields nothing"
+                            % (case["point"], broker.get(P)), **ctx)
+    elif P in broker:
+        raise Violation("spec %s holds %r although no implementation is declared for the active context"
+                        % (case["point"], broker.get(P)), **ctx)
+    via = any(not any(_is_ctx(x) for x in dr.get_delegate(im).get_dependencies()) for im in cs)
+    if via:
+        labels.append("context-through-another-datasource")
+    if len(cs) >= 2:
+        labels.append("override")
+    return {"nontrivial": len(cs) >= 2 or (bool(cs) and via), "labels": labels}
+
+
 SUBS = [
+    Sub("shipped", check_shipped, enumerate=shipped_cases, workers_quick=4, workers_thorough=8, budget_quick=60,
+        budget_thorough=300),
     Sub("spec_sets", check_world, strategy=strat_world, quick=3000, thorough=12000, workers_quick=2,
         workers_thorough=16, budget_quick=50, budget_thorough=540),
 ]
